@@ -9,8 +9,10 @@
 (*     pl = payload descriptors [len, b0, b1, units, uh, walk]                  *)
 (*  codec "vp8":  n, pid (the frame's picture id), eq, olen,                    *)
 (*     pl = [len, d (first <= 4 bytes), ppid (picture id from the real parser)] *)
-(*  codec "vp8desc": rows = [pid, s, d (descriptor bytes), ppid, pps]: the real *)
-(*     VpxPayloadDescriptor serialised and parsed back (picture id sweep)       *)
+(*  codec "vp8desc": rows = [pid, s, d (descriptor bytes), ppid, rawlen, plen,  *)
+(*     dplen, feq]: the real VpxPayloadDescriptor serialised and parsed back    *)
+(*     (picture id sweep x optional fields); plen / dplen = bytes consumed by    *)
+(*     the parser / removed by vp8_depayload, feq = all fields came back equal   *)
 (*  exc: "" or the exception the real code raised.                              *)
 (*                                                                              *)
 (* The verdict is total: ValidPacketization's verdict functions of             *)
@@ -35,8 +37,15 @@ DescVerdict(rows) ==
       dec == [i \in 1..N |-> Vp8Decode(rows[i].d, Len(rows[i].d))]
       badS == {i \in 1..N : dec[i].s # rows[i].s}
       badP == {i \in 1..N : ~dec[i].has \/ dec[i].pid # rows[i].pid \/ rows[i].ppid # rows[i].pid}
+      \* the descriptor is exactly as long as RFC 7741 says for its flag bits (T and K share
+      \* one octet), the parser and the depayloader consume exactly that many bytes, and every
+      \* optional field comes back as it went in
+      badL == {i \in 1..N : dec[i].dlen # rows[i].rawlen \/ rows[i].plen # dec[i].dlen \/ rows[i].dplen # dec[i].dlen}
+      badF == {i \in 1..N : ~rows[i].feq}
   IN IF badS # {} THEN <<"C16.vp8_start_bit", First(badS)>>
      ELSE IF badP # {} THEN <<"C16.vp8_picture_id", First(badP)>>
+     ELSE IF badL # {} THEN <<"C16.vp8_descriptor_length", First(badL)>>
+     ELSE IF badF # {} THEN <<"C16.vp8_descriptor_fields", First(badF)>>
      ELSE <<"ok", 0>>
 
 Verdict(t) ==
